@@ -34,6 +34,10 @@ pub struct RpcServer {
     stop: Arc<AtomicBool>,
 }
 
+/// Number of upcoming `getblock` requests on which the simulated node drops the connection without answering
+/// (a glitch that hits exactly a block download; the RPC client's own reconnect-and-retry is a request too).
+pub static DROP_GETBLOCK: AtomicU64 = AtomicU64::new(0);
+
 impl Drop for RpcServer {
     fn drop(&mut self) {
         self.stop.store(true, Ordering::SeqCst);
@@ -127,6 +131,10 @@ fn serve_conn(mut stream: TcpStream, env: Env, stop: Arc<AtomicBool>) {
         }
         let req: Value = serde_json::from_slice(&body).unwrap_or(Value::Null);
         let method = req["method"].as_str().unwrap_or("");
+        if method == "getblock" && DROP_GETBLOCK.load(Ordering::SeqCst) > 0 {
+            DROP_GETBLOCK.fetch_sub(1, Ordering::SeqCst);
+            return;
+        }
         let params = req.get("params").cloned().unwrap_or(json!([]));
         let resp = match dispatch(&env, method, &params) {
             Ok(v) => json!({"result": v, "error": null, "id": req["id"]}),
@@ -605,6 +613,32 @@ pub fn outage_recovery() -> Result<(), (String, String)> {
     let db = DbView::read(&t.db);
     if db.trackers.len() != 1 {
         return Err(("teosd:no-recovery:breach-mined-during-the-outage-not-answered".into(), format!("trackers after recovery: {:?}", db.trackers.keys().collect::<Vec<_>>())));
+    }
+    // a glitch that hits exactly the download of a block with a breach (the connection is dropped on that request and on
+    // the client's immediate retry); everything else keeps working
+    if add(1, 2).map(|r| r.0) != Some(200) {
+        return Err(("machinery:teosd-refused-the-second-appointment".into(), String::new()));
+    }
+    DROP_GETBLOCK.store(2, Ordering::SeqCst);
+    env.lock().mine(vec![crate::sim::build_tx(TxName::D(2))]);
+    let synced = t.wait_synced(&env);
+    DROP_GETBLOCK.store(0, Ordering::SeqCst);
+    if !synced {
+        return Err(("teosd:no-recovery:block-whose-download-was-interrupted-never-processed".into(), String::new()));
+    }
+    // (the chain position on disk can run ahead of what the listeners were given when a download fails - the recorded
+    // finding lkb-ahead-of-listeners - so the block may only be processed by the next poll: give it a few of them)
+    let t0 = Instant::now();
+    let mut db = DbView::read(&t.db);
+    while db.trackers.len() != 2 && t0.elapsed() < patience(10) {
+        std::thread::sleep(Duration::from_millis(300));
+        db = DbView::read(&t.db);
+    }
+    if db.trackers.len() != 2 {
+        return Err((
+            "teosd:breach-in-a-block-whose-download-was-interrupted-not-answered".into(),
+            format!("the connection was dropped while that block was being downloaded; trackers afterwards: {}", db.trackers.len()),
+        ));
     }
     // once more, and this time nothing is mined while the node is away (the recovering polls find no new tip)
     rpc2.stop();
